@@ -195,6 +195,30 @@ def run(prop, tier, seed, known):
             for kind, src in sources('2.0 a\n1.0 b\n'):
                 expect('load_labeled_events with decreasing times', lambda: IO.load_labeled_events(src),
                        lambda r: None if isinstance(r, tuple) and isinstance(r[0], np.ndarray) and r[0].tolist() == [2.0, 1.0] and list(r[1]) == ['a', 'b'] else 'got %r' % (r,))
+            # content that parses but violates a convention is returned WITH a warning (and a conforming file without one)
+            def warned(fn_):
+                with warnings.catch_warnings(record=True) as rec_:
+                    warnings.simplefilter('always')
+                    try:
+                        val_ = fn_()
+                    except Exception as ex_:
+                        return ex_, -1
+                return val_, len(rec_)
+            for text_, call_, should_ in (('44100.0\n', IO.load_events, True), ('31000.5\n12.0\n', IO.load_events, True), ('12.0\n', IO.load_events, False), ('', IO.load_events, False),
+                                          ('1.0\n2.0\n', IO.load_events, False), ('2.0\n1.0\n', IO.load_events, True),
+                                          ('44100.0 a\n', IO.load_labeled_events, True), ('12.0 a\n', IO.load_labeled_events, False),
+                                          ('1.0 0.5\n', IO.load_intervals, True), ('0.5 1.0\n', IO.load_intervals, False), ('-1.0 1.0\n', IO.load_intervals, True),
+                                          ('1.0 0.5 x\n', IO.load_labeled_intervals, True), ('0.5 1.0 x\n', IO.load_labeled_intervals, False),
+                                          ('1.0 0.5 3.0\n', IO.load_valued_intervals, True), ('0.5 1.0 3.0\n', IO.load_valued_intervals, False)):
+                for kind, src in sources(text_):
+                    n += 1
+                    val_, nw_ = warned(lambda: call_(src))
+                    if nw_ < 0:
+                        fails.append('%s(%r) (%s) raised %s instead of returning the content%s' % (call_.__name__, text_, kind, type(val_).__name__, ' with a warning' if should_ else ''))
+                    elif should_ and nw_ == 0:
+                        fails.append('%s(%r) (%s) returned content that violates the task conventions without a warning' % (call_.__name__, text_, kind))
+                    elif not should_ and nw_ > 0:
+                        fails.append('%s(%r) (%s) warned about a file that follows the conventions' % (call_.__name__, text_, kind))
             # every loader honours a non-default comment marker (and comment=None: nothing is a comment)
             for mark_, cre_ in (('%', '%'), ('//', '//'), ('!', '!')):
                 cl_ = '%s a comment line\n' % mark_
